@@ -64,6 +64,15 @@ CHECKS = {
   note='Trusted base: z3 5.1 regex solver, vlib/rx2smt.py (self-checked each run by pushing z3-generated members and '
        'non-members through the real re), wall-clock timing with a 2 s cut-off on this machine.',
   technique='regex-to-SMT translation of live patterns, z3 ambiguity queries, pumped timing replay on real re/compile'),
+ 'C01': dict(
+  text='Differential checking of the real matcher against an independent reference model (vlib/refmodel.py): '
+       '(a) E2: for each attribute operator the regular expression found in the compiled IR is proved equivalent, as a '
+       'language over unbounded strings (z3 regex theory), to the reference operator language; (b) E1: attribute values, '
+       'ids and class strings are symbolic over all of Unicode (len <= 3/4) against every operator x flag x operand; '
+       '(c) 600/5000 seeded random selector lists of the claimed grammar (depth 2) x 63/203 trees are compared exhaustively '
+       '(identity and order of select() from the document and from inner elements), chosen by symbolic index.',
+  design_ref='DESIGN.md §4 C01',
+  technique='CrossHair symbolic execution of real matcher + z3 regex equivalence of live operator patterns, reference-model oracle, replay'),
 }
 
 NOT_APPLICABLE = {
